@@ -374,6 +374,79 @@ where
     }
 }
 
+/// Two threads add the same (and different) signals to one instance at the same time: afterwards the
+/// signal must be watched exactly once (one action, one wake byte per delivery) and everything must go
+/// away with the instance.
+fn concurrent_adds(rounds: u64, seed: u64, fd: i32) -> i32 {
+    use crate::fork::wr;
+    let mut rng = Rng::new(seed);
+    let sigs = [libc::SIGUSR1, libc::SIGUSR2, libc::SIGHUP];
+    for s in sigs.iter() {
+        let _ = unsafe { signal_hook_registry::register(*s, || ()) };
+    }
+    let base = crate::sig::open_fds();
+    for round in 0..rounds {
+        director::clear_rules();
+        for st in [site::IT_ADD_LOCKED, site::IT_ADD_REGISTERED, site::REG_CLONED, site::REG_DONE] {
+            director::set_rule(st, director::RuleSpec { mode: director::mode::DELAY, p: 40000, max: 1 + rng.below(3000) as u32, ..Default::default() });
+        }
+        let (r, w) = UnixStream::pair().unwrap();
+        let rfd = r.as_raw_fd();
+        let d = match SignalDelivery::with_pipe(r, w, WithRawSiginfo, &[] as &[c_int]) {
+            Ok(d) => d,
+            Err(e) => {
+                wr(fd, &format!("BAD with_pipe failed: {}\n", e));
+                break;
+            }
+        };
+        let barrier = Arc::new(std::sync::Barrier::new(2));
+        let same = sigs[(round % 3) as usize];
+        let mut js = Vec::new();
+        for t in 0..2u32 {
+            let h: Handle = d.handle();
+            let b = barrier.clone();
+            let other = sigs[((round + 1 + t as u64) % 3) as usize];
+            js.push(std::thread::spawn(move || {
+                crate::set_thread(10 + t, class::MUTATOR);
+                director::seed_thread(round * 2 + t as u64 + 1);
+                b.wait();
+                let a = h.add_signal(same).is_ok();
+                let c = h.add_signal(other).is_ok();
+                a && c
+            }));
+        }
+        let ok = js.into_iter().all(|j| j.join().unwrap_or(false));
+        director::clear_rules();
+        if !ok {
+            wr(fd, &format!("BAD round {}: a concurrent add_signal of a valid signal failed or panicked\n", round));
+        }
+        for s in sigs.iter() {
+            let before = STORED.load(Ordering::SeqCst);
+            let b0 = crate::sig::fionread(rfd);
+            unsafe { libc::raise(*s) };
+            let ran = STORED.load(Ordering::SeqCst) - before;
+            let bytes = crate::sig::fionread(rfd) - b0;
+            if ran > 1 || bytes > 1 {
+                wr(fd, &format!("BAD round {}: after two threads added signal {} concurrently one delivery ran {} actions of the instance and wrote {} wake bytes (re-adding must be a no-op)\n", round, s, ran, bytes));
+            }
+        }
+        drop(d);
+        let before = STORED.load(Ordering::SeqCst);
+        for s in sigs.iter() {
+            unsafe { libc::raise(*s) };
+        }
+        if STORED.load(Ordering::SeqCst) != before {
+            wr(fd, &format!("BAD round {}: {} actions of the instance still ran after it and its handles were dropped (concurrent add_signal leaked a registration)\n", round, STORED.load(Ordering::SeqCst) - before));
+        }
+        if crate::sig::open_fds() != base {
+            wr(fd, &format!("BAD round {}: descriptors {:?} differ from the baseline {:?} after the drop\n", round, crate::sig::open_fds(), base));
+            break;
+        }
+    }
+    wr(fd, "DONE\n");
+    0
+}
+
 pub fn main(args: &[String]) -> i32 {
     let seed = arg_u64(args, "--seed", 1);
     let n = arg_u64(args, "--scripts", 300);
@@ -461,6 +534,22 @@ pub fn main(args: &[String]) -> i32 {
             }
         }
     }
+    // ---- concurrent additions
+    let conc_rounds = arg_u64(args, "--concurrent", 200);
+    let mut concurrent_rounds_done = 0u64;
+    if bad.is_empty() && conc_rounds > 0 {
+        let res = fork::probe(300_000, false, move |fd| concurrent_adds(conc_rounds, seed, fd));
+        if !res.out.contains("DONE") {
+            bad.push(("concurrent-add-died".into(), format!("concurrent add_signal run ended {:?}: {}", res.end, res.out.lines().last().unwrap_or(""))));
+        } else {
+            concurrent_rounds_done = conc_rounds;
+        }
+        for l in res.out.lines().filter(|l| l.starts_with("BAD ")).take(3) {
+            let sg = if l.contains("still ran") || l.contains("descriptors") { "concurrent-add-leaks-registration" } else { "concurrent-add-registers-twice" };
+            bad.push((sg.into(), l[4..].to_string()));
+        }
+        keys.insert("concurrent-adds".to_string());
+    }
     director::uninstall();
     let mut nviol = 0;
     let mut seen = std::collections::HashSet::new();
@@ -480,6 +569,7 @@ pub fn main(args: &[String]) -> i32 {
         .set("scripts_with_err_reject", J::u(outcome_counts[Class::Err as usize]))
         .set("scripts_with_panic_reject", J::u(outcome_counts[Class::Panic as usize]))
         .set("rejected_numbers_in_rotation", J::u(rejects.len() as u64))
+        .set("concurrent_add_rounds", J::u(concurrent_rounds_done))
         .set("violations", J::u(nviol))
         .set("wall_ms", J::u(crate::now_ms() - t0)));
     if nviol == 0 {
